@@ -63,3 +63,29 @@ func HC16_constraintWithEnum() {
 	vfAssert(strings.Contains(got, "Kind = '"+value+"'"), "C16/enum-placeholder-becomes-the-sql-literal-of-the-constant")
 	vfAssert(strings.HasPrefix(got, "ALTER TABLE items ADD CHECK (") && strings.Contains(got, "OR items IS NULL)"), "C16/table-struct-names-of-the-constraint-are-rewritten")
 }
+
+// HC16_sameDirectiveTwoTables: two structs of one file carrying the very same directive text: each
+// table gets its own statement (ADD is attached to the table of the struct carrying the comment).
+func HC16_sameDirectiveTwoTables() {
+	directive := []string{"ADD UNIQUE(Name)", "ADD CHECK (Name <> '')", "CREATE INDEX ON Item (Name)"}[vfChoice("directive", 3)]
+	src := "package p\n\n// gomacro:SQL " + directive + "\ntype Item struct {\n\tId int64\n\tName string\n}\n\n// gomacro:SQL " + directive + "\ntype Other struct {\n\tId int64\n\tName string\n}\n\ntype Plain struct {\n\tId int64\n\tName string\n}\n"
+	pkg := vfTypeCheck("example.com/mod/p", []string{"/m/p/p.go"}, []string{src}, nil)
+	var text string
+	panicked, rt, msg := vfCatch(func() {
+		ana := an.NewAnalysisFromFile(pkg, "/m/p/p.go")
+		text = gen.WriteDeclarations(Generate(ana))
+	})
+	vfObserve("outcome", msg)
+	vfAssert(!panicked && !rt, "C16/generation-completes")
+	if panicked {
+		return
+	}
+	if strings.HasPrefix(directive, "ADD") {
+		rest := strings.TrimPrefix(directive, "ADD")
+		vfAssert(strings.Count(text, "ALTER TABLE items ADD"+rest+";") == 1, "C16/add-constraint-is-attached-to-the-table-of-the-struct-carrying-the-comment")
+		vfAssert(strings.Count(text, "ALTER TABLE others ADD"+rest+";") == 1, "C16/add-constraint-is-attached-to-the-table-of-the-struct-carrying-the-comment")
+		vfAssert(!strings.Contains(text, "ALTER TABLE plains ADD"+rest), "C16/add-constraint-is-attached-to-no-other-table")
+	} else {
+		vfAssert(strings.Count(text, "CREATE INDEX ON items (Name);") == 2, "C16/every-directive-is-emitted")
+	}
+}
